@@ -445,7 +445,7 @@ class TagSoupSystem(System):
         return check_soup(text)
 
 
-PROBES = [t for n in range(1, 3) for t, _ in forests(n, 1)]
+PROBES = [t for n in range(1, 3) for t, _ in forests(n, 1)][::6]  # every sixth forest of <= 2 nodes (an enumerated stride, not a sample)
 
 
 class HistorySystem(System):
